@@ -71,6 +71,8 @@ def install(rmod, log, ident):
         async def get(self):
             x = await super().get()
             log.add("q.get", mid(x), role())
+            if role() == "rn":
+                LAST_GET["id"] = mid(x)     # the message the runner holds when it creates the next callback task
             return x
 
     async def wait(fs, timeout=None, **kw):
@@ -92,7 +94,14 @@ def install(rmod, log, ident):
         if r == "pf":
             log.add("la.new")
         elif r == "rn":
-            log.add("spawn", LAST_CB.pop("id", None))
+            # the task is created for the message the runner has just taken from the queue.  The callback coroutine may
+            # be handed over directly (LAST_CB says for which message it was made) or wrapped by the runner in a coroutine of
+            # its own (a harmless refactoring): then the message is the one of the preceding q.get, and the callback that
+            # eventually starts inside this task must be for that message (checked in the callback wrapper: `cb.wrong`)
+            made_for = LAST_CB.pop("id", None)
+            got = LAST_GET.pop("id", None)
+            t._vexpect = got
+            log.add("spawn", made_for if made_for is not None else got)
         return t
 
     class Shim(types.ModuleType):
@@ -147,6 +156,9 @@ def wrap_receiver(r, log, ident, A, P):
         t._vmsg = _vid                      # read by the task factory: tasks created from here on belong to this message
         # (fourth field: how the callback task ended, only when it ended in the cancelled state)
         t.add_done_callback(lambda _t: log.add("cb.done", _vid, "cancelled" if _t.cancelled() else None))
+        exp = getattr(t, "_vexpect", None)
+        if exp is not None and exp != _vid:
+            log.add("cb.wrong", _vid, exp)  # the task created for message `exp` runs the callback of another message
         log.add("cb.start", _vid)
         try:
             return await ocb(message=message, raise_err=raise_err)
@@ -154,18 +166,20 @@ def wrap_receiver(r, log, ident, A, P):
             log.add("cb.end", _vid)
 
     def cbf(message, raise_err=False):
-        LAST_CB["id"] = ident(message)      # read by the create_task shim that receives this coroutine
+        if role() == "rn":                  # called by the runner itself, to hand the coroutine to create_task
+            LAST_CB["id"] = ident(message)  # read by the create_task shim that receives this coroutine
         return cb(message, raise_err)
 
     r.prefetcher, r.runner, r.callback = pref, run, cbf
 
 
 LAST_CB = {}
+LAST_GET = {}
 
 
 # ----------------------------------------------------------------------------------------------------------
 # raw log -> RecvLTS events (Coq literals)
-LTS_TAGS = frozenset(["STOP", "TAKE", "END", "RETURN", "fin?", "la.new", "semp.acq", "semp.rel", "sem.acq", "sem.rel", "poll", "exh",
+LTS_TAGS = frozenset(["cb.wrong", "STOP", "TAKE", "END", "RETURN", "fin?", "la.new", "semp.acq", "semp.rel", "sem.acq", "sem.rel", "poll", "exh",
                       "q.put", "q.get", "spawn", "cb.end", "cb.done", "waited", "CUTMARK"])
 
 
@@ -282,6 +296,8 @@ def to_lts(ev, limited):
                 bad("q.get without exactly one spawn")
         elif t == "spawn":
             bad("stray spawn")
+        elif t == "cb.wrong":
+            bad("the task created for message %s runs the callback of message %s" % (b, a))
         elif t == "cb.end":
             out.append("ECbEnd %d" % a)
         elif t == "sem.rel":
